@@ -384,7 +384,15 @@ def run_one(entry, evidence_dir):
     res = {"id": mid, "kind": kind, "props": props, "rule": rule, "file": file}
     try:
         shutil.copytree(os.path.join(REPO, "indi"), os.path.join(d, "indi"))
-        if file == "*unparse*":
+        if file.startswith("*seed:"):
+            # an independently seeded change kept under /verif/seeded/<id>/patch.diff (DESIGN.md section 10)
+            patch = os.path.join(VERIF, "seeded", file[6:-1], "patch.diff")
+            pr = subprocess.run(["git", "apply", patch], cwd=d, capture_output=True, text=True)
+            if pr.returncode != 0:
+                res["status"] = "skipped"
+                res["why"] = "seeded patch does not apply to the current tree: " + pr.stderr.strip()[:200]
+                return res
+        elif file == "*unparse*":
             res["modules"] = unparse_roundtrip(d)
         elif file == "*rename-locals*":
             res["functions"] = rename_locals(d)
@@ -448,9 +456,19 @@ def run_one(entry, evidence_dir):
         shutil.rmtree(d, ignore_errors=True)
 
 
+def seed_entries(prop=None):
+    out = []
+    sd = os.path.join(VERIF, "seeded")
+    for name in sorted(os.listdir(sd)) if os.path.isdir(sd) else []:
+        if os.path.exists(os.path.join(sd, name, "patch.diff")) and (prop is None or name[:3] == prop):
+            out.append((f"seed-{name}", "break", [name[:3]], None, f"*seed:{name}*", "", ""))
+    return out
+
+
 def run_for_property(prop: str, jobs: int = 16):
     entries = [e for e in M if prop in e[2]]
     entries = [(e[0], e[1], [prop] if e[1] == "preserve" else e[2], e[3], e[4], e[5], e[6]) for e in entries if e[1] == "preserve" or e[2][0] == prop]
+    entries.extend(seed_entries(prop))
     entries.append((f"{prop}-unparse-roundtrip", "preserve", [prop], None, "*unparse*", "", ""))
     entries.append((f"{prop}-rename-locals", "preserve", [prop], None, "*rename-locals*", "", ""))
     entries.append((f"{prop}-invert-ifs", "preserve", [prop], None, "*invert-ifs*", "", ""))
@@ -482,7 +500,7 @@ def main(argv=None):
     ap.add_argument("--out", default=os.path.join(VERIF, "selftest_report.json"))
     a = ap.parse_args(argv)
     sel = set(a.props.split(",")) if a.props else None
-    entries = list(M)
+    entries = list(M) + seed_entries()
     allprops = [f"C{i:02d}" for i in range(1, 21)]
     entries.append(("all-unparse-roundtrip", "preserve", allprops, None, "*unparse*", "", ""))
     entries.append(("all-rename-locals", "preserve", allprops, None, "*rename-locals*", "", ""))
